@@ -112,7 +112,7 @@ static int view_cmp(uint64_t na, const uint16_t *a, uint64_t nb, const uint16_t 
 #define QTAG16(d) ((d)->f3 == QS_OFF ? ((struct qs*)(d))->b64 : (QAD*)0)
 #define QTAG8(d) ((d)->f3 == QB_OFF ? ((struct qb*)(d))->b64 : (QAD*)0)
 #ifndef QCAP
-#define QCAP 12u
+#define QCAP 10u
 #endif
 static int vpl_qeq16(QAD *a, QAD *b) { uint32_t i = 0; for (; i < QHINT16(a) && i < QHINT16(b) && i < QCAP; i++) { if (i >= a->f1) break; if (((uint16_t*)((char*)a + a->f3))[i] != ((uint16_t*)((char*)b + b->f3))[i]) return 0; }
   ASSERT(!(i == QCAP && a->f1 > QCAP), "string comparison longer than QCAP units"); return 1; }
@@ -155,7 +155,7 @@ uint8_t _ZeqRK7QStringS1_(char *a, char *b) { return d_eq(*(QAD**)a, *(QAD**)b);
    "unknown object" alternative in cbmc's value set (same block, different offsets => offset lost), whose hint is not a constant;
    the cap keeps the unrolling finite and small. Hitting the cap with both strings longer is flagged (inconclusive). */
 #ifndef QCAP
-#define QCAP 12u
+#define QCAP 10u
 #endif
 static int vpl_qcmp16(QAD *a, QAD *b) { uint32_t i = 0; for (; i < QHINT16(a) && i < QHINT16(b) && i < QCAP; i++) { if (i >= a->f1 || i >= b->f1) break; if (QCH16(a)[i] != QCH16(b)[i]) return QCH16(a)[i] < QCH16(b)[i] ? -1 : 1; }
   ASSERT(!(i == QCAP && a->f1 > QCAP && b->f1 > QCAP), "string comparison longer than QCAP units");
